@@ -123,6 +123,14 @@ def gen(rng, tier):
                          ("Transfer-Encoding", "chunked"), ("transfer-encoding", "identity"), ("TRANSFER-ENCODING", "gzip, chunked")]
     pool_o = ordinary + [("x-a", "1"), ("X-A", "2"), ("accept", "*/*"), ("content-length", "0"), ("cookie", "a=b"),
                          ("content-typ", "x"), ("expectt", "y"), ("transfer-encodin", "z"), ("x-content-type", "w")]
+    # bytes >= 0x80 in a field value or name (Latin-1 and UTF-8 sequences, at the start / middle / end): never exposed
+    for v in ("Jos\xe9", "caf\xc3\xa9", "\x80", "a\xffb", "x\xc2\xa0", "\xe2\x82\xac1"):
+        for pos in range(3):
+            fields = [("host", "h"), ("x-a", "1"), ("via", "p")]
+            fields[pos] = (fields[pos][0], v)
+            cases.append(req_case("GET", fields))
+        cases.append(req_case("POST", [("content-type", v), ("x-b", "2")]))
+        cases.append(req_case("GET", [("x-" + v, "1")]))
     for _ in range(1500 if tier == "quick" else 100000):
         k = rng.randint(0, 12)
         fields = []
